@@ -224,6 +224,7 @@ def enum_xpak(seed):
     dicts.append({"environment.bz2": b"\x00\xff" * 9, "CATEGORY": "dev-util\n", "PF": "é-1"})
     # the package may be reached through a symbolic link (the $PKGDIR/<category>/ -> All/ layout); keys differing only in case
     dicts.append({"repo": "gentoo", "X": "1"})
+    dicts.append({"environment.bz2": b"", "environment": b"", "CATEGORY": "", "PF": "p-1"})   # empty values of both kinds
     link = os.path.join(tmpd, "a-link-with-quite-a-long-name-to-the-package.tbz2")
     os.symlink(path, link)
     for pre, via in [(p_, v_) for p_ in payloads + [b"T" * 500] for v_ in ("path", "symlink")]:
@@ -242,6 +243,9 @@ def enum_xpak(seed):
                     g = got.get(k)
                     vb = v.encode("utf8") if isinstance(v, str) else v
                     gb = g.encode("utf8") if isinstance(g, str) else g
+                    # text values come back decoded, environment values as bytes -- also when they are empty
+                    if g is not None and isinstance(g, bytes) != k.startswith("environment"):
+                        bad({"prefix_len": len(pre), "keys": list(d), "via": via}, f"{what}: key {k!r} read back as {type(g).__name__} {g!r}; {'environment values are bytes' if k.startswith('environment') else 'text values are str'}")
                     if gb != vb:
                         bad({"prefix_len": len(pre), "keys": list(d), "key_rewritten_on_reading": [k] if k.upper() in got and k not in got else []}, f"{what}: key {k!r} read back as {g!r}, written {v!r}")
                 if list(got) != list(want):
